@@ -26,7 +26,7 @@ demo_install() {
   elif [ -f $SRC/demo.diff ]; then
     ( cd $WT && git apply $SRC/demo.diff ) || { echo "$ID/$V: demo.diff does not apply"; return 1; }
     DEMO_CMD="cargo test --workspace --offline seed"
-    grep -q "features" $SRC/README.md && DEMO_CMD=$(grep -oE "cargo test[^\`]*seed[^\`]*" $SRC/README.md | head -1 | sed 's/CARGO_TARGET_DIR=[^ ]* //')
+    grep -q "features" $SRC/README.md && DEMO_CMD=$(grep -oE "cargo test[^\`]*seed[^\`]*" $SRC/README.md | head -1 | sed 's/CARGO_TARGET_DIR=[^ ]* //; s/ 2>.*$//; s/ |.*$//')
   else
     echo "$ID/$V: no demonstration delivered"; return 1
   fi
